@@ -454,6 +454,26 @@ func (r *runner) knownStream() {
 	var back string
 	json.Unmarshal([]byte(e.S), &back)
 	known("json_encode:invalid-utf8-replaced", e.Kind == "str" && back != "a\xffb", fmt.Sprintf("json_encode(\"a\\xffb\") = %s (reads back as %q)", e.S, back), kc)
+	// number texts: the default path refuses a number beyond the float range (the assoc path reads ±INF)
+	d = r.e.call("json_decode", str(`1e400`))
+	da := r.e.call("json_decode", str(`1e400`), data.NewBoolValue(true))
+	known("json_decode:rejects-valid:number-overflow", d.Kind == "null" && da.Kind == "float", "json_decode('1e400') = "+d.Kind+", json_decode('1e400', true) = "+da.Kind, Case{Kind: "jsonnum", Hex: hexs("1e400"), Sub: "text"})
+	// the assoc path answers an int for a text that does not denote that integer (read through float64)
+	d = r.e.call("json_decode", str(`9007199254740993.0`), data.NewBoolValue(true))
+	got = "?" + d.Kind
+	if d.V != nil {
+		got = fromData(d.V).String()
+	}
+	known("json_decode:int-from-rounded-float", got == "I9007199254740992", "json_decode('9007199254740993.0', true) = "+got, Case{Kind: "jsonnum", Hex: hexs("9007199254740993.0"), Sub: "text"})
+	// json_encode writes an integral float of magnitude ≥ 2^53 as an integer literal with padded digits; json_decode reads the literal exactly
+	e = r.e.call("json_encode", data.NewFloatValue(4611686018427387904))
+	d = r.e.call("json_decode", str(e.S), data.NewBoolValue(true))
+	got = "?" + d.Kind
+	if d.V != nil {
+		got = fromData(d.V).String()
+	}
+	known("json:roundtrip-float:padded-integer-literal", d.Kind == "int" && got != "I4611686018427387904",
+		"json_decode(json_encode(2.0**62) = "+e.S+", true) = "+got+" (2^62 = 4611686018427387904)", Case{Kind: "jsonnum", Sub: "float", Val: "43d0000000000000"})
 	// serialize(float) is false
 	s := r.e.call("serialize", data.NewFloatValue(1.5))
 	known("serialize:float", s.Kind != "str", "serialize(1.5) = "+s.Kind, kc)
